@@ -72,10 +72,20 @@ static void body(void *arg)
 	jwt_builder_claim_set(b, &v);
 	jwt_set_SET_STR(&v, "kid", sub);
 	jwt_builder_header_set(b, &v);
+	jwt_set_SET_STR(&v, "iss", "iss-shared");
+	jwt_builder_claim_set(b, &v);
+	jwt_set_SET_STR(&v, "aud", "aud-shared");
+	jwt_builder_claim_set(b, &v);
 	o->tok = jwt_builder_generate(b);
 	o->gen_failed = o->tok == NULL;
 	jwt_checker_t *k = jwt_checker_new();
 	jwt_checker_setkey(k, c->alg, pub);
+	/* each thread's checker expects a different claim: whatever the claim checks keep between two calls in flight shows
+	 * as a good token refused (or a wrong one accepted) in the other thread */
+	if (o->tid % 2 == 0)
+		jwt_checker_claim_set(k, JWT_CLAIM_ISS, "iss-shared");
+	else
+		jwt_checker_claim_set(k, JWT_CLAIM_AUD, "aud-shared");
 	o->r_own = o->tok ? jwt_checker_verify(k, o->tok) : -1;
 	o->r_bad = jwt_checker_verify(k, FIXED_BAD[o->cfg]);
 	o->flag_after_bad = jwt_checker_error(k);
@@ -126,7 +136,7 @@ static void setup(void)
 		free(b);
 		char hdr[64];
 		snprintf(hdr, sizeof hdr, "{\"alg\":\"%s\"}", tok_alg_names[CFG[i].alg]);
-		char *input = tok_signing_input(hdr, "{\"sub\":\"fixed\"}");
+		char *input = tok_signing_input(hdr, "{\"sub\":\"fixed\",\"iss\":\"iss-shared\",\"aud\":\"aud-shared\"}");
 		unsigned char *sig, mac[64];
 		size_t sl;
 		if (!CFG[i].key) {
